@@ -50,16 +50,19 @@ pub fn init(verbose: bool) {
     utils::set_panic_hook();
 }
 
+#[cfg(not(feature = "beff_verif"))]
 #[wasm_bindgen]
 extern "C" {
     fn resolve_import(current_file: &str, specifier: &str) -> Option<String>;
 }
 
+#[cfg(not(feature = "beff_verif"))]
 #[wasm_bindgen]
 extern "C" {
     fn read_file_content(file_name: &str) -> Option<String>;
 }
 
+#[cfg(not(feature = "beff_verif"))]
 #[wasm_bindgen]
 extern "C" {
     fn emit_diagnostic(diag: JsValue);
@@ -143,6 +146,7 @@ fn run_extraction(entry: EntryPoints) -> ParserExtractResult {
         })
     })
 }
+#[cfg(not(feature = "beff_verif"))]
 fn print_errors(errors: &[DiagnosticInformation]) {
     let v = WasmDiagnostic::from_diagnostics(errors);
     let v = serde_json::to_string(&v).expect("should be able to serialize diagnostics");
@@ -174,5 +178,92 @@ fn update_file_content_inner(file_name: &str, content: &str) {
             let mut b = b.borrow_mut();
             b.files.insert(file_name, f);
         })
+    }
+}
+
+// ---------------------------------------------------------------------------------------------
+// Verification hooks (cargo feature `beff_verif`, off by default): a native, injectable host in
+// place of the JavaScript imports, and String-returning entry points over the same inner
+// functions and the same thread-local BUNDLER. Nothing here is compiled without the feature.
+#[cfg(feature = "beff_verif")]
+use verif_host::{print_errors, read_file_content, resolve_import};
+
+#[cfg(feature = "beff_verif")]
+mod verif_host {
+    use beff_core::diag::DiagnosticInformation;
+    use beff_core::wasm_diag::WasmDiagnostic;
+    use std::cell::RefCell;
+
+    pub trait Host {
+        fn resolve_import(&mut self, current_file: &str, specifier: &str) -> Option<String>;
+        fn read_file_content(&mut self, file_name: &str) -> Option<String>;
+    }
+
+    thread_local! {
+        pub static HOST: RefCell<Option<Box<dyn Host>>> = const { RefCell::new(None) };
+        pub static EMITTED: RefCell<Vec<String>> = const { RefCell::new(Vec::new()) };
+    }
+
+    pub fn resolve_import(current_file: &str, specifier: &str) -> Option<String> {
+        HOST.with(|h| {
+            h.borrow_mut()
+                .as_mut()
+                .and_then(|h| h.resolve_import(current_file, specifier))
+        })
+    }
+
+    pub fn read_file_content(file_name: &str) -> Option<String> {
+        HOST.with(|h| {
+            h.borrow_mut()
+                .as_mut()
+                .and_then(|h| h.read_file_content(file_name))
+        })
+    }
+
+    pub fn print_errors(errors: &[DiagnosticInformation]) {
+        let v = WasmDiagnostic::from_diagnostics(errors);
+        let v = serde_json::to_string(&v).expect("should be able to serialize diagnostics");
+        EMITTED.with(|e| e.borrow_mut().push(v));
+    }
+}
+
+#[cfg(feature = "beff_verif")]
+pub mod verif {
+    pub use super::verif_host::Host;
+    use super::verif_host::{EMITTED, HOST};
+
+    /// Installs the host functions of the current thread's session.
+    pub fn set_host(host: Box<dyn Host>) {
+        HOST.with(|h| *h.borrow_mut() = Some(host));
+    }
+
+    pub fn bundle_to_string(parser_entry_point: &str, settings: &str) -> Result<String, String> {
+        super::bundle_to_string_inner(super::parse_entrypoints(parser_entry_point, settings))
+            .map_err(|e| e.to_string())
+    }
+
+    pub fn bundle_to_diagnostics(parser_entry_point: &str, settings: &str) -> String {
+        let v = super::bundle_to_diagnostics_inner(super::parse_entrypoints(
+            parser_entry_point,
+            settings,
+        ));
+        serde_json::to_string(&v).expect("should be able to serialize diagnostics")
+    }
+
+    pub fn update_file_content(file_name: &str, content: &str) {
+        super::update_file_content_inner(file_name, content)
+    }
+
+    /// Diagnostics handed to `emit_diagnostic` since the last call (JSON strings).
+    pub fn take_emitted_diagnostics() -> Vec<String> {
+        EMITTED.with(|e| std::mem::take(&mut *e.borrow_mut()))
+    }
+
+    /// Names of the files currently held by this thread's session cache.
+    pub fn cached_files() -> Vec<String> {
+        let mut v: Vec<String> =
+            super::BUNDLER.with(|b| b.borrow().files.keys().map(|k| k.to_string()).collect());
+        v.sort();
+        v
     }
 }
